@@ -579,6 +579,10 @@ def list_method(I, lst, name):
     return NotImplemented
 
 
+class DictKeys(list):
+    """dict.keys() view: iterates like a list, compares like a set"""
+
+
 def dict_method(I, d, name):
     from . import models_ext as E
 
@@ -607,7 +611,7 @@ def dict_method(I, d, name):
         return [(E.unwrap_key(kk), v) for kk, v in d.items()]
 
     def keys(I_, a, k):
-        return [E.unwrap_key(kk) for kk in d.keys()]
+        return DictKeys(E.unwrap_key(kk) for kk in d.keys())
 
     def values(I_, a, k):
         return list(d.values())
@@ -1107,6 +1111,12 @@ def build_table():
         _os.path.join: m_path_join, _os.path.dirname: m_path_dirname, _os.path.split: m_path_split,
         _os.path.basename: m_path_basename, _os.path.isdir: m_isdir, _os.listdir: m_listdir, _os.rmdir: m_rmdir, _os.rename: m_rename,
     }
+    def exc_init(I, a, k):
+        if isinstance(a[0], SObj):
+            a[0].fields["args"] = tuple(a[1:])
+        return None
+    for e in (BaseException, Exception, ValueError, KeyError, IndexError, AssertionError, TypeError, OSError):
+        t[e.__init__] = exc_init
     try:
         from allmydata.util import fileutil
         t[fileutil.make_dirs] = m_make_dirs
